@@ -105,6 +105,32 @@ let cmd_lazy = function
       L [ sx_of_qopt s.lz_lon; sx_of_qopt s.lz_areas ]
   | _ -> failwith "lazy: (derived computed lon0 areas0 reads)"
 
+let sx_of_ent = function EInt z -> sx_of_z z | ENan -> A "NAN"
+
+let cmd_faces_of = function
+  | L [n; w; t; faces] ->
+      L [ sx_of_table (c01_faces_of (table_of_sx t));
+          sx_of_bool (c01_wf_facesb (z_of_sx n) (nat_of_int (int_of_sx w)) (table_of_sx faces)) ]
+  | _ -> failwith "faces_of: (n w table faces)"
+
+let cmd_mpas_encode = function
+  | L [z; w; f] -> sx_of_table (c01_mpas_encode (bool_of_sx z) (nat_of_int (int_of_sx w)) (table_of_sx f))
+  | _ -> failwith "mpas_encode: (zeros w faces)"
+
+let cmd_esmf_encode = function
+  | L [s; w; f] -> sx_of_list (sx_of_list sx_of_ent) (c01_esmf_encode (z_of_sx s) (nat_of_int (int_of_sx w)) (table_of_sx f))
+  | _ -> failwith "esmf_encode: (s w faces)"
+
+let cmd_scrip_encode = function
+  | L [w; f] -> sx_of_list sx_of_pairs (c01_scrip_encode (nat_of_int (int_of_sx w)) (list_of_sx pairs_of_sx f))
+  | _ -> failwith "scrip_encode: (w faces)"
+
+let cmd_ugrid_dims = function
+  | L [a; b; c; e] ->
+      let ((x, y), z) = c01_ugrid_dims (bool_of_sx a) (bool_of_sx b) (bool_of_sx c) (bool_of_sx e) in
+      L [ sx_of_bool x; sx_of_bool y; sx_of_bool z ]
+  | _ -> failwith "ugrid_dims: 4 flags"
+
 let cmd_sniff = function
   | L [a; b; c; d; e; f; g; h] ->
       sx_of_z (c01_sniff { k_coord = bool_of_sx a; k_coordx = bool_of_sx b; k_grid_center_lon = bool_of_sx c;
@@ -116,5 +142,6 @@ let commands : (string * (sx -> sx)) list = [
   "ugrid", cmd_ugrid; "topo", cmd_topo; "mpas_padded", cmd_mpas_padded; "mpas_plain", cmd_mpas_plain;
   "scrip", cmd_scrip; "exodus", cmd_exodus; "exodus_coords", cmd_exodus_coords; "esmf", cmd_esmf; "fv", cmd_fv;
   "geos", cmd_geos; "icon", cmd_icon; "icon_encode", cmd_icon_encode; "geo", cmd_geo; "wrap", cmd_wrap;
-  "sniff", cmd_sniff; "lazy", cmd_lazy;
+  "sniff", cmd_sniff; "lazy", cmd_lazy; "faces_of", cmd_faces_of; "mpas_encode", cmd_mpas_encode; "esmf_encode", cmd_esmf_encode;
+  "scrip_encode", cmd_scrip_encode; "ugrid_dims", cmd_ugrid_dims;
 ]
